@@ -99,6 +99,9 @@ var vPubProgs = []vPubProg{
 	{`tags.x in ["v"]`, []string{"tags.x"}},
 	{`tags.x between 1 and 2`, []string{"tags.x"}},
 	{`tags.x = true`, []string{"tags.x"}},
+	{`tags.a.b = "v"`, []string{"tags.a.b"}},
+	{`tags.a.b.c != null and s = "x"`, []string{"tags.a.b.c", "s"}},
+	{`true sort by tags.a.b`, []string{"tags.a.b"}},
 	{`anyOf(roles) = "a"`, []string{"roles"}},
 	{`allOf(roles) != "a"`, []string{"roles"}},
 	{`anyOf(roles) in ["a", "b"]`, []string{"roles"}},
@@ -172,6 +175,9 @@ func VerifC20_PublicSymbolValidation() {
 	}
 	q, err := ast.Parse(store, p.text)
 	verifrt.Assert(err == nil, "C20 family member parses and types: "+p.text)
+	// validations do not influence each other: one that references nothing first
+	q0, err := ast.Parse(store, "true limit none")
+	verifrt.Assert(err == nil && ValidateSymbolsArePublic(q0, store) == nil, "C20 a query referencing no symbol is accepted")
 	verr := ValidateSymbolsArePublic(q, store)
 	verifrt.Assert((verr == nil) == allPublic, "C20 accepted iff every referenced symbol is public: "+p.text)
 	if verr != nil {
@@ -187,6 +193,18 @@ func VerifC20_PublicSymbolValidation() {
 			}
 			verifrt.Assert(named, "C20 rejection names a referenced non-public symbol: "+p.text)
 		}
+		// the verdict is a function of the query and the current visibility: after
+		// a rejection, publishing the missing symbols makes the same query pass,
+		// and an unrelated acceptable query passes too
+		verifrt.Assert(ValidateSymbolsArePublic(q0, store) == nil, "C20 a rejection does not leak into the next validation")
+		for _, name := range p.syms {
+			base := name
+			if len(name) > 5 && name[:5] == "tags." {
+				base = "tags"
+			}
+			store.MakeSymbolPublic(base)
+		}
+		verifrt.Assert(ValidateSymbolsArePublic(q, store) == nil, "C20 accepted once every referenced symbol has been made public: "+p.text)
 	}
 }
 
